@@ -508,6 +508,78 @@ def forces_energy_oracle(run, c, j, pos, lab, fields, step, replay, efh=None, fi
                 run.violation("trajfields:bias-energy", "step %d column %s holds %r, k/2 |x - c|^2 = %r" % (step, nm, got, float(want)), replay)
 
 
+# ------------------------------------------------------------------ composition with C06's restraint model
+_C06 = {}
+
+
+def c06_tools():
+    """C06's check module (case encoding) and its extracted, proved restraint model"""
+    if not _C06:
+        import importlib.util
+        pth = os.path.join(V.ROOT, "props", "C06", "check.py")
+        spec = importlib.util.spec_from_file_location("check_C06_for_C19", pth)
+        mod = importlib.util.module_from_spec(spec)
+        spec.loader.exec_module(mod)
+        _C06["mod"] = mod
+        _C06["exe"] = V.extract_model("C06", mod.EXTRACT, mod.DRIVER, ["ocaml/fops.ml"])
+    return _C06["mod"], _C06["exe"]
+
+
+def c06_expectations(c):
+    """for every restraint defined from the start on plain scalar variables and not touched by script events:
+    per calc index, what C06's model says the energy, centres and accumulated work are.  -> {bias id: [dict per calc]}"""
+    elig = []
+    touched = set(e[2] for e in c["events"] if e[0] == "set" and e[1] == "bias")
+    for b in c["biases"]:
+        if b["kind"] not in ("harmonic", "linear", "walls") or b["id"] in touched:
+            continue
+        vs = [[v for v in c["vars"] if v["id"] == i][0] for i in b["vars"]]
+        if any(v["type"] != "z" or v.get("extlag") for v in vs):
+            continue
+        elig.append(b)
+    if not elig:
+        return {}
+    mod, exe = c06_tools()
+
+    def wallsinit(hl, hu, lk, uk):
+        rc, out, err = V.run_lines(exe, ["WALLSINIT %d %d %s %s" % (1 if hl else 0, 1 if hu else 0, hx(lk), hx(uk))])
+        t = out[0].split()
+        return float.fromhex(t[0]), float.fromhex(t[1]), float.fromhex(t[2])
+    lines, owners = [], []
+    for b in elig:
+        evs = []
+        pos = {}
+        typ = "S"
+        alive = True
+        for ev in c["events"]:
+            if ev[0] == "step":
+                for vid, x in ev[1].items():
+                    pos[int(vid)] = x
+                evs.append((typ, [pos[i] for i in b["vars"]]))
+                typ = "S"
+            elif ev[0] == "boundary":
+                typ = "B"
+            elif ev[0] == "restart":
+                typ = "R"
+        cc = {"kind": b["kind"], "vars": [{"w": 1.0, "per": False} for _ in b["vars"]], "k": b["k"], "it0": c["it0"], "events": evs,
+              "accw": bool(b.get("accw")), "dec": False, "lexp": 1.0, "N": b.get("N", 0), "tk": b.get("tk", 1.0)}
+        if b["kind"] == "walls":
+            cc.update({"hl": True, "hu": True, "lower": [-2.0] * len(b["vars"]), "upper": [2.0] * len(b["vars"]), "lwk": None,
+                       "mode": "kc" if b.get("chgk") else "none"})
+        else:
+            cc.update({"centers": b["c"], "target_centers": b["tc"], "mode": "cc" if b.get("chgc") else ("kc" if b.get("chgk") else "none")})
+        ml, d = mod.model_case(cc, wallsinit)
+        lines.append(ml)
+        owners.append(b)
+    rc, out, err = V.run_lines(exe, lines)
+    res = {}
+    if rc != 0 or len(out) != len(lines):
+        return res
+    for b, o in zip(owners, out):
+        res[b["id"]] = mod.parse_model_line(o)
+    return res
+
+
 def label_text(name, biasvars):
     """model column name -> text in the file"""
     if name.startswith("ForceConst@"):
@@ -550,6 +622,14 @@ def check_traj_case(run, c, k, impl_lines, scratch, model):
     for b in c["biases"] + [e[1] for e in c["events"] if e[0] == "addbias"]:
         biasvars["b%d" % b["id"]] = ["v%d" % i for i in b["vars"]]
     ncmp = 0
+    c06exp = c06_expectations(c)
+    deleted_at = {}
+    jj = 0
+    for ev in c["events"]:
+        if ev[0] == "step":
+            jj += 1
+        elif ev[0] == "delbias":
+            deleted_at[ev[1]] = jj
     for si, s in enumerate(segs):
         path = os.path.join(scratch, "c%ds%d.colvars.traj" % (k, si))
         flines = parse_traj(path)
@@ -601,6 +681,27 @@ def check_traj_case(run, c, k, impl_lines, scratch, model):
             if lab is None or len(lab) != len(l[2]) or n >= len(js):
                 continue
             j = js[n]
+            # written restraint columns against C06's proved model of the restraint at this evaluation
+            for bid, outs in c06exp.items():
+                if j >= len(outs) or j >= deleted_at.get(bid, 10 ** 9):
+                    continue
+                b = [bb for bb in c["biases"] if bb["id"] == bid][0]
+                o = outs[j]
+                chk = []
+                if "E_b%d" % bid in lab and lab.count("E_b%d" % bid) == 1:
+                    chk.append(("E_b%d" % bid, o["E"]))
+                if "W_b%d" % bid in lab and lab.count("W_b%d" % bid) == 1:
+                    chk.append(("W_b%d" % bid, o["W"]))
+                if b.get("centers") and b["kind"] != "walls":
+                    for n_, i in enumerate(b["vars"]):
+                        if lab.count("x0_v%d" % i) == 1 and sum(1 for bb in live_biases(c, j) if bb.get("centers") and i in bb["vars"]) == 1:
+                            chk.append(("x0_v%d" % i, o["C"][n_]))
+                for col, want in chk:
+                    got = l[2][lab.index(col)]
+                    run.dist("oracle:c06-model:" + col.split("_")[0])
+                    if not close(got, want, 1e-11):
+                        run.violation("trajfields:restraint-model:" + col.split("_")[0], "step %d column %s holds %r, the restraint model "
+                                      "(C06) of bias b%d has %r at that evaluation" % (l[1], col, got, bid, want), replay)
             fixed_centres_oracle(run, c, lab, l[2], l[1], replay)
             forces_energy_oracle(run, c, j, poshist[j], lab, l[2], l[1], replay, efh, l[1] == s["it_restart"])
             for v in c["vars"]:
